@@ -245,7 +245,7 @@ C02_CTORS = ["Any", "Just", "OneOf", "NoneOf", "Then", "Or", "Map", "Filter", "O
 PLAIN_KINDS = ("str", "slice", "array", "stream", "bstream", "mapspan", "withctx", "bytes", "io", "graphemes", "gslice")
 ALL_KINDS = tuple(k for k in PLAIN_KINDS if k not in ("graphemes", "gslice")) + ("mapped", "mappedstream", "iter")
 # extended grapheme clusters as tokens (FORMAT v4): single code points and the table entries 3000000.. (CR LF, e + acute, a flag, a ZWJ family, Hangul LVT, a + 2 marks)
-GALPHA = [97, 98, 99, 233, 13, 10, 3000000, 3000000, 3000001, 3000002, 3000003, 3000004, 3000005]
+GALPHA = [97, 98, 99, 233, 13, 10, 3000000, 3000000, 3000001, 3000002, 3000003, 3000004, 3000005, 3000006, 3000007, 0x928, 49]
 def c10_graphemes(rng, tier):
     G = Gen(rng, [c for c in CORE + ITER + RECOVER], alpha=GALPHA, slices=True)
     out = []
@@ -268,7 +268,7 @@ def c01_graphemes(rng, tier):
             if any(a == 13 and b == 10 for a, b in zip(inp, inp[1:])): continue
             out.append((g, inp, ["graphemes", "gslice"]))
     # a cluster next to its proper pieces, every class written three ways (the harness picks the form of the sequence argument from its content)
-    for cl, pieces in ((3000001, [101]), (3000005, [97]), (3000000, [13, 10])):
+    for cl, pieces in ((3000001, [101]), (3000005, [97]), (3000000, [13, 10]), (3000006, [0x928]), (3000007, [49])):
         for x in (120, 121, 122, 98, 99, 233):
             for mk in (lambda c: ["OneOf", c], lambda c: ["NoneOf", c], lambda c: ["Collect", "CVec", ["IRep", ["OneOf", c], 0, "inf"]],
                        lambda c: ["Then", ["Or", ["OneOf", c], ["To", 1, "Any"]], "End"], lambda c: ["Then", ["Not", ["OneOf", c]], "Any"]):
@@ -343,7 +343,7 @@ SPECS = {
     "C06": Spec("C06", CORE + ITER + ["TryMapWith"] * 2 + ["CollectOrNot", "Prog"] + ["AnyRef", "SelectRef"] * 2, obs_last, ikinds=("str", "slice"), ekinds=("rich", "simple", "cheap", "empty"), no_not=True, extra=span_wf_oracle,
                 nontrivial=lambda g, inp: has_head(g, BACKTRACK),
                 rule="C01/C02 grammars without `not`, all four error types on every case; non-trivial = a backtracking site present"),
-    "C07": Spec("C07", CORE + SPANS * 4 + ITER + ["Padded"] + ["AnyRef", "SelectRef"] * 2 + ["Prog"] * 2, obs_vv, ekinds=("rich",), ikinds=("str", "slice", "mapped", "mappedstream", "iter"),
+    "C07": Spec("C07", CORE + SPANS * 4 + ITER + ["Padded"] + ["AnyRef", "SelectRef"] * 2 + ["Prog"] * 2 + ["Pratt"] * 2, obs_vv, ekinds=("rich",), ikinds=("str", "slice", "mapped", "mappedstream", "iter"),
                 nontrivial=lambda g, inp: len(inp) > 0 and has_head(g, {"MapWith", "ToSpan", "ToSlice", "TryMapWith", "FoldlWith", "FoldrWith", "IMapWith"}),
                 rule="C01/C02 grammars with span / slice captures; multi-byte characters in the alphabet; "
                      "non-trivial = a capture node present and non-empty input"),
@@ -495,6 +495,12 @@ def deep_case(d):
     if fam in ("rec_nest", "decl_nest"):
         g = nest("Rec" if fam == "rec_nest" else "RecDecl")
         inp = [O] * n + [Cc] * (n - 1 if broken else n)
+    elif fam in ("fat_rec", "fat_decl"):
+        # every level goes through an extension parser that keeps a 36 KiB scratch buffer on the stack (harness ExtW): the stack
+        # must be grown in time for levels that need tens of KiB between two growth checks
+        R = "Rec" if fam == "fat_rec" else "RecDecl"
+        g = ["Ignored", [R, ["Or", ["Ignored", ["Then", ["Just", [O]], ["Then", ["ExtWrap", ["Var", 0]], ["Just", [Cc]]]]], ["Ignored", "Empty"]]]]
+        inp = [O] * n + [Cc] * (n - 1 if broken else n)
     elif fam in ("mutual_decl", "mutual_rec"):
         # round = '(' square ')' | empty ; square = '[' round ']' | empty
         R = "RecDecl" if fam == "mutual_decl" else "Rec"
@@ -533,6 +539,9 @@ def c12_deep(tier):
         out.append(dict(family=fam, n=n // 2, mode="parse", broken=True))
     out.append(dict(family="right_rec", n=n // 2, mode="parse"))
     out.append(dict(family="right_rec", n=n // 2, mode="check", decl=True))
+    for fam in ("fat_rec", "fat_decl"):
+        out.append(dict(family=fam, n=3000 if tier == "quick" else 20000, mode="parse"))
+        out.append(dict(family=fam, n=3000 if tier == "quick" else 20000, mode="check"))
     return out
 
 def c20_deep(tier):
